@@ -21,4 +21,8 @@ theorem toNat_pos_of_ne_zero (c : BitVec 64) (h : ¬ c = 0#64) : 0 < c.toNat := 
   · exact absurd (BitVec.eq_of_toNat_eq (by simpa using h0)) h
   · exact h0
 
+theorem maxDecimal_eq : Verif.Gen.Currency.maxDecimal = ⟨9223372036854775807, 0⟩ := by decide
+
+theorem sign_eq_neg_one_iff (i : Int) : Int.sign i = -1 ↔ i < 0 := Int.sign_eq_neg_one_iff_neg
+
 end Verif.Lemmas.C18
